@@ -151,7 +151,11 @@ def run(case):
             if not ok:
                 return out
             exp = expect_after_update({c: m.df[c].to_numpy() for c in ["x", "y", "z", "shift_x", "shift_y", "shift_z"]}, "memory")
-        ok, sg = call(out, "convert_to_sg_motl", lambda: cryomotl.StopgapMotl.convert_to_sg_motl(m.df, reset_index=reset))
+        if reset or n % 2:
+            ok, sg = call(out, "convert_to_sg_motl", lambda: cryomotl.StopgapMotl.convert_to_sg_motl(m.df, reset_index=reset))
+        else:  # nothing requested: no renumbering
+            out.label("reset_index_left_at_its_default")
+            ok, sg = call(out, "convert_to_sg_motl", lambda: cryomotl.StopgapMotl.convert_to_sg_motl(m.df))
         if not ok:
             return out
         if out.check(list(sg.columns) == SG_COLUMNS, "memory:sg_columns", list(sg.columns)):
@@ -167,7 +171,11 @@ def run(case):
             ok, m = call(out, "StopgapMotl", lambda: cryomotl.StopgapMotl(df0.copy()))
             if not ok:
                 return out
-            ok, _ = call(out, "write_out", lambda: m.write_out(star_path, update_coord=upd, reset_index=reset))
+            if reset or n % 2:
+                ok, _ = call(out, "write_out", lambda: m.write_out(star_path, update_coord=upd, reset_index=reset))
+            else:
+                out.label("reset_index_left_at_its_default")
+                ok, _ = call(out, "write_out", lambda: m.write_out(star_path, update_coord=upd))
         else:
             if ex == "emmotl2stopgap_em":
                 ok, _ = call(out, "Motl.write_out", lambda: cryomotl.Motl(df0.copy()).write_out("in.em"))
@@ -179,7 +187,11 @@ def run(case):
                 exp = a.copy()
             else:
                 src = df0.copy()
-            ok, m = call(out, "emmotl2stopgap", lambda: cryomotl.emmotl2stopgap(src, output_motl_path=star_path, update_coordinates=upd, reset_index=reset))
+            if reset or n % 2:
+                ok, m = call(out, "emmotl2stopgap", lambda: cryomotl.emmotl2stopgap(src, output_motl_path=star_path, update_coordinates=upd, reset_index=reset))
+            else:
+                out.label("reset_index_left_at_its_default")
+                ok, m = call(out, "emmotl2stopgap", lambda: cryomotl.emmotl2stopgap(src, output_motl_path=star_path, update_coordinates=upd))
             if ok:
                 # the same conversion without an output file: the returned list is the same list (updated coordinates included)
                 src2 = src if isinstance(src, str) else df0.copy()
